@@ -673,6 +673,96 @@ func init() {
 							}
 						}
 					}
+					// a tuple-returning helper: `err, depth := r.topCondition()` where the helper's k-th result
+					// is, on every return, the stack's length (a local defined as len(stack), or the
+					// constant 0 on the edge where that local is 0)
+					if o := identObj(info, e); o != nil && depth < 3 {
+						if dc, idx, ndef := definingCall(info, fd.Body, o); dc != nil && ndef == 1 && len(dc.Args) == 0 {
+							if h := originOf(Callee(info, dc)); h != nil {
+								if hd := c.declOf[h]; hd != nil && hd.Body != nil && h.Type().(*types.Signature).Results().Len() > 1 {
+									hinfo := c.pkgOf[hd].TypesInfo
+									hu := FuncUnit{h, hd, c.pkgOf[hd]}
+									isLenExpr := func(x ast.Expr) bool {
+										x = ast.Unparen(x)
+										if lc, ok := x.(*ast.CallExpr); ok && len(lc.Args) == 1 {
+											if id, ok := ast.Unparen(lc.Fun).(*ast.Ident); ok && id.Name == "len" && FieldOfSelector(hinfo, lc.Args[0]) == fld {
+												return true
+											}
+										}
+										return false
+									}
+									// locals (incl. named results) whose every assignment is len(stack)
+									lenLocal := func(x ast.Expr) types.Object {
+										lo := identObj(hinfo, x)
+										if lo == nil {
+											return nil
+										}
+										n, good := 0, 0
+										ast.Inspect(hd.Body, func(m ast.Node) bool {
+											if as, ok := m.(*ast.AssignStmt); ok && len(as.Lhs) == len(as.Rhs) {
+												for i, l := range as.Lhs {
+													if identObj(hinfo, l) == lo {
+														n++
+														if isLenExpr(as.Rhs[i]) {
+															good++
+														}
+													}
+												}
+											}
+											return true
+										})
+										if n > 0 && n == good {
+											return lo
+										}
+										return nil
+									}
+									hfc := c.cfgOf(hu, nil)
+									allLen, nret := true, 0
+									for _, hb := range hfc.G.Blocks {
+										if !hfc.Live(hb) {
+											continue
+										}
+										for _, nd := range hb.Nodes {
+											rs, ok := nd.(*ast.ReturnStmt)
+											if !ok {
+												continue
+											}
+											nret++
+											if idx >= len(rs.Results) {
+												allLen = false
+												continue
+											}
+											r := rs.Results[idx]
+											if isLenExpr(r) || lenLocal(r) != nil {
+												continue
+											}
+											if k, isC := intConst(hinfo, r); isC && k == 0 {
+												// returned where the length is known to be zero
+												zero := hfc.edgesImplying(func(a LitAtom) bool {
+													be, ok := ast.Unparen(a.E).(*ast.BinaryExpr)
+													if !ok || (be.Op != token.EQL && be.Op != token.NEQ) {
+														return false
+													}
+													kk, isK := intConst(hinfo, be.Y)
+													if !isK || kk != 0 || !(isLenExpr(be.X) || lenLocal(be.X) != nil) {
+														return false
+													}
+													return (be.Op == token.EQL) == a.Positive
+												})
+												if len(zero) > 0 && !hfc.reachableAvoiding(hb, zero) {
+													continue
+												}
+											}
+											allLen = false
+										}
+									}
+									if allLen && nret > 0 {
+										return 0, true
+									}
+								}
+							}
+						}
+					}
 					if o := identObj(info, e); o != nil && depth < 3 {
 						var def ast.Expr
 						n := 0
